@@ -325,8 +325,8 @@ def _worker(arg):
 
 def main(tier: str) -> int:
     run = common.Run(PROP, tier)
-    n = 60 if tier == 'quick' else 1000
-    n_compile = 6 if tier == 'quick' else 60
+    n = 60 if tier == 'quick' else 4000
+    n_compile = 6 if tier == 'quick' else 200
     scratch = run.scratch()
     run.require('builds', 'find_fqn_calls_observed', 'emitted_types_checked', 'spec_unique',
                 'spec_several', 'spec_none', 'spec_wrong-kind', 'site_port-type',
